@@ -212,12 +212,14 @@ func (s *Stream) SetReadDeadline(deadline time.Time) error {
 }
 
 // isBehindNextSSN reports whether ssn lies behind the next stream sequence number
-// the ordered reader is waiting for (serial number arithmetic).
+// the ordered reader is waiting for (serial number arithmetic). A number exactly
+// 2^15 ahead counts as behind too: serial number arithmetic defines no order for
+// that pair, and the reassembly queue cannot sort it.
 func (s *Stream) isBehindNextSSN(ssn uint16) bool {
 	s.lock.RLock()
 	defer s.lock.RUnlock()
 
-	return sna16LT(ssn, s.reassemblyQueue.nextSSN)
+	return ssn-s.reassemblyQueue.nextSSN >= 1<<15
 }
 
 func (s *Stream) handleData(pd *chunkPayloadData) error {
